@@ -715,4 +715,73 @@ theorem kde_normalised (o : Obj) (a b I : Rat) (hI : Lp.C09.pInteg o a b = .ok I
 
 end Fixes
 
+/-! ## Mirrors of the repairs proposed by the second audit: value-neutrality / specification of the new forms -/
+
+theorem invErfSym_agrees (T : Fn) (p : Rat) (h : ¬ rabs (p + 1) < 1e-16) : invErfSym T p = invErf T p := by
+  unfold invErfSym invErf; rw [if_neg h]
+
+theorem invErfSym_window (T : Fn) (p : Rat) (h : rabs (p + 1) < 1e-16) : invErfSym T p = .ok (-10) := by
+  unfold invErfSym
+  have h1 : ¬ rabs (p - 1) < 1e-16 := by
+    unfold rabs at h ⊢
+    split_ifs at h ⊢ <;> norm_num at * <;> linarith
+  rw [if_neg h1, if_pos h]
+
+theorem chiBarE_spec (T : Fn) (x : Rat) (w : List Rat) :
+    ((∀ v ∈ w, 0 ≤ v ∧ v ≤ 1) → pdfChiBarE T x w = .ok (pdfChiBar T x w) ∧ cdfChiBarE T x w = .ok (cdfChiBar T x w)) ∧
+      ((∃ v ∈ w, v < 0 ∨ 1 < v) → pdfChiBarE T x w = .error .diag ∧ cdfChiBarE T x w = .error .diag) := by
+  unfold pdfChiBarE cdfChiBarE chiBarWeightsOk
+  constructor
+  · intro h
+    have : w.all (fun v => decide (0 ≤ v ∧ v ≤ 1)) = true := by
+      rw [List.all_eq_true]; intro v hv; simpa using h v hv
+    rw [if_pos this, if_pos this]; exact ⟨rfl, rfl⟩
+  · rintro ⟨v, hv, hbad⟩
+    have : w.all (fun v => decide (0 ≤ v ∧ v ≤ 1)) = false := by
+      rw [List.all_eq_false]
+      refine ⟨v, hv, ?_⟩
+      simp only [decide_eq_true_eq]
+      intro h; rcases hbad with hb | hb <;> linarith [h.1, h.2]
+    rw [this]; exact ⟨rfl, rfl⟩
+
+/-- the `t = x/a` forms are value-neutral in exact arithmetic -/
+theorem pdfMBt_eq (T : Fn) (x a : Rat) : pdfMBt T x a = pdfMB T x a := by
+  unfold pdfMBt pdfMB
+  by_cases ha : a ≤ 0
+  · rw [if_pos ha, if_pos ha]
+  · have ha0 : a ≠ 0 := by intro h; exact ha (by rw [h])
+    rw [if_neg ha, if_neg ha]
+    by_cases hx : x < 0
+    · rw [if_pos hx, if_pos hx]
+    · rw [if_neg hx, if_neg hx]
+      simp only
+      have e : -(x / a) * (x / a) / 2 = -x * x / 2 / a / a := by field_simp
+      rw [e]
+      congr 1
+      field_simp
+
+theorem cdfMBt_eq (T : Fn) (x a : Rat) : cdfMBt T x a = cdfMB T x a := by
+  unfold cdfMBt cdfMB
+  by_cases ha : a ≤ 0
+  · rw [if_pos ha, if_pos ha]
+  · have ha0 : a ≠ 0 := by intro h; exact ha (by rw [h])
+    rw [if_neg ha, if_neg ha]
+    by_cases hx : x < 0
+    · rw [if_pos hx, if_pos hx]
+    · rw [if_neg hx, if_neg hx]
+      simp only
+      have e1 : -(x / a) * (x / a) / 2 = -x * x / 2 / a / a := by field_simp
+      have e2 : x / a / T.sqrt 2 = x / T.sqrt 2 / a := by
+        by_cases h2 : T.sqrt 2 = 0
+        · simp [h2]
+        · field_simp
+      have e3 : T.sqrt (2 / T.pi) * (x / a) = T.sqrt (2 / T.pi) * x / a := by field_simp
+      rw [e1, e2, e3]
+
+theorem kdeAutoBandwidth_pos (r xMin xMax : Rat) (h : xMin < xMax) : 0 < kdeAutoBandwidth r xMin xMax := by
+  unfold kdeAutoBandwidth
+  by_cases hr : r > 0
+  · rw [if_neg (not_not.mpr hr)]; exact hr
+  · rw [if_pos hr]; exact div_pos (by linarith) (by norm_num)
+
 end Lp.C07
